@@ -142,15 +142,3 @@ pub fn digest_from_words<B: FA, H: HA<B>>(w: &[Src; 4]) -> H::Digest {
         H::from_ref(&Dg::Bytes(bytes))
     }
 }
-
-pub fn modulus_u64<B: FA>() -> u64 {
-    let p = B::FP.p;
-    if p > u64::MAX as u128 {
-        u64::MAX
-    } else {
-        p as u64
-    }
-}
-
-#[allow(dead_code)]
-pub fn assert_field<B: FA + StarkField>() {}
